@@ -386,6 +386,23 @@ func lifeEdit(env *gobl.Envelope, op Op) bool {
 		} else if v.Get("name") != nil {
 			changed = v.Del("name")
 		}
+	case "nocalc":
+		// make the document impossible to calculate: a tax category nobody defines
+		if ls := v.Get("lines"); ls != nil && ls.K == 'a' && len(ls.A) > 0 && ls.A[0].K == 'o' {
+			if ts := ls.A[0].Get("taxes"); ts != nil && ts.K == 'a' && len(ts.A) > 0 && ts.A[0].K == 'o' && ts.A[0].Get("cat").Str() != "XYZ" {
+				ts.A[0].Set("sim-cat", JStr(ts.A[0].Get("cat").Str()))
+				ts.A[0].Del("sim-cat")
+				ts.A[0].Set("cat", JStr("XYZ"))
+				changed = true
+			}
+		}
+	case "fixnocalc":
+		if ls := v.Get("lines"); ls != nil && ls.K == 'a' && len(ls.A) > 0 && ls.A[0].K == 'o' {
+			if ts := ls.A[0].Get("taxes"); ts != nil && ts.K == 'a' && len(ts.A) > 0 && ts.A[0].K == 'o' && ts.A[0].Get("cat").Str() == "XYZ" {
+				ts.A[0].Set("cat", JStr("VAT"))
+				changed = true
+			}
+		}
 	case "fixinvalid":
 		if sup := v.Get("supplier"); sup != nil && sup.Get("name") == nil {
 			sup.Set("name", JStr("Restored Supplier S.L."))
